@@ -201,16 +201,21 @@ func (w *world) add(b *block) {
 }
 
 func decodeHWP(content []byte) (*types.Header, []byte, error) {
-	// the SSZ container through the generated decoder (C14), the header with go-ethereum's rlp directly
-	hwp := new(ht.BlockHeaderWithProof)
-	if err := hwp.UnmarshalSSZ(content); err != nil {
-		return nil, nil, err
+	// the SSZ container split HERE (not by the generated decoder under test): two 4-byte offsets, the first exactly 8, the second
+	// between the first and the end; header = [8, o1) of at most 8192 bytes, proof = [o1, end) of at most 1024 bytes; the header
+	// with go-ethereum's rlp directly
+	if len(content) < 8 {
+		return nil, nil, errors.New("short")
+	}
+	o0, o1 := int(binary.LittleEndian.Uint32(content)), int(binary.LittleEndian.Uint32(content[4:]))
+	if o0 != 8 || o1 < o0 || o1 > len(content) || o1-o0 > 8192 || len(content)-o1 > 1024 {
+		return nil, nil, errors.New("layout")
 	}
 	h := new(types.Header)
-	if err := rlp.DecodeBytes(hwp.Header, h); err != nil {
+	if err := rlp.DecodeBytes(content[o0:o1], h); err != nil {
 		return nil, nil, err
 	}
-	return h, hwp.Proof, nil
+	return h, append([]byte{}, content[o1:]...), nil
 }
 
 func (w *world) ingest(entries []kvEntry, src string) {
@@ -1412,6 +1417,7 @@ func runVC(o *Out, r *rand.Rand, rg *rig, nMut int, thorough bool) {
 			case ht.ReceiptsType:
 				fm = w.receiptFieldMutations(r, c)
 			}
+			fm = append(fm, reframings(c, ht.ContentType(t))...)
 			for _, m := range fm {
 				rg.vc(o, key, m.data, caseMeta{b.name, kt, m.name, "honest", false})
 			}
@@ -1741,4 +1747,40 @@ func runGate(o *Out, r *rand.Rand, rg *rig, thorough bool) {
 		}
 		o.Case(fmt.Sprintf("gate n=%d ; %s", len(items), strings.Join(parts, " ; ")), fmt.Sprintf("out=%s puts=%s", out, puts))
 	}
+}
+
+// reframings: the genuine value laid out differently - every field keeps its bytes, but the leading offset table is followed by
+// n bytes that belong to no field (all offsets raised by n). A decoder that only follows the offsets reads the genuine fields;
+// the byte string is not the genuine one.
+func reframings(c []byte, t ht.ContentType) []mutation {
+	if len(c) < 4 {
+		return nil
+	}
+	first := int(binary.LittleEndian.Uint32(c))
+	nOff := 0
+	switch t {
+	case ht.BlockHeaderType, ht.BlockHeaderNumberType:
+		nOff = 2
+	case ht.BlockBodyType:
+		nOff = first / 4 // 2 (legacy) or 3 (Shanghai): the first offset says where the table ends
+	case ht.ReceiptsType:
+		nOff = first / 4 // one offset per receipt
+	}
+	if nOff < 1 || nOff > 4096 || first != 4*nOff || len(c) < first {
+		return nil
+	}
+	var out []mutation
+	for _, n := range []int{1, 4, 32} {
+		d := make([]byte, 0, len(c)+n)
+		d = append(d, c[:first]...)
+		for i := 0; i < nOff; i++ {
+			binary.LittleEndian.PutUint32(d[4*i:], binary.LittleEndian.Uint32(c[4*i:])+uint32(n))
+		}
+		for k := 0; k < n; k++ {
+			d = append(d, byte(0xa0+k))
+		}
+		d = append(d, c[first:]...)
+		out = append(out, mutation{"s-gap-after-offsets", d})
+	}
+	return out
 }
